@@ -227,7 +227,8 @@ def run_real(src, env, T, **cfg):
     via = VIA[0] % 3
     try:
         if via == 0:
-            return PageTemplate(src, translate=tr, **cfg)(v=env['v'], lang=env['lang'], **render_kw), log
+            from vlib import routes, state
+            return routes.make(PageTemplate, src, 4, state.CTX, translate=tr, **cfg)(v=env['v'], lang=env['lang'], **render_kw), log
         # the translation function given per rendering wins over the template's own
         def wrong(*a, **kw):
             log.append(('TEMPLATE-LEVEL TRANSLATE USED',) + a)
